@@ -10,6 +10,16 @@ package interpreter
 //@ spec func srcOK(i *Interpreter) bool = i.sourceFragments != nil && i.knownPredicates != nil &&
 //@      (forall k int :: 0 <= k && k < len(i.src) ==> i.src[k] in i.sourceFragments && i.sourceFragments[i.src[k]] != nil && i.sourceFragments[i.src[k]].program != nil
 //@          && (forall p ast.PredicateSym :: p in i.sourceFragments[i.src[k]].program.Decls ==> i.sourceFragments[i.src[k]].program.Decls[p] != nil))
+// declaresP(pi, q): some declaration of the program is for predicate q; liveDecl(i, n, q): one of the first n live
+// fragments declares q; liveOK: every live fragment still has its entry (paths in the list are pairwise different -
+// loading a loaded path is refused - so removing the popped path's entry leaves the others).
+//@ spec func declaresP(pi *analysis.ProgramInfo, q ast.PredicateSym) bool = exists sym ast.PredicateSym :: sym in pi.Decls && pi.Decls[sym].DeclaredAtom.Predicate == q
+//@ spec func liveDecl(i *Interpreter, n int, q ast.PredicateSym) bool = exists j int :: 0 <= j && j < n && declaresP(i.sourceFragments[i.src[j]].program, q)
+// allKnown(i, n): whatever one of the first n live fragments declares is known
+//@ spec func allKnown(i *Interpreter, n int) bool = forall j int, sym ast.PredicateSym :: 0 <= j && j < n && sym in i.sourceFragments[i.src[j]].program.Decls ==> i.sourceFragments[i.src[j]].program.Decls[sym].DeclaredAtom.Predicate in i.knownPredicates
+//@ spec func liveOK(i *Interpreter) bool = forall k int :: 0 <= k && k < len(i.src) ==> i.src[k] in i.sourceFragments && i.sourceFragments[i.src[k]] != nil && i.sourceFragments[i.src[k]].program != nil
+//@      && (forall p ast.PredicateSym :: p in i.sourceFragments[i.src[k]].program.Decls ==> i.sourceFragments[i.src[k]].program.Decls[p] != nil)
+//@ spec func distinctPaths(i *Interpreter) bool = forall a int, b int :: 0 <= a && a < b && b < len(i.src) ==> i.src[a] != i.src[b]
 //@ spec func topIsInteractive(i *Interpreter) bool = len(i.src) > 0 && i.src[len(i.src)-1] == interactivePath
 
 // Parsing, analysis and evaluation are opaque here; they cannot reach the interpreter's unexported fields.
@@ -29,43 +39,52 @@ package interpreter
 // A pop removes the most recent live fragment: the path list loses its last entry and both stores return to the
 // checkpoints taken when that fragment was pushed. The interactive text buffer is not touched.
 //@ func (i *Interpreter) popSourceFragment()
-//@   requires i != nil && srcOK(i)
-//@   modifies i.src, i.sourceFragments, i.knownPredicates, i.simpleStore, i.temporalStore, i.store
+//@   requires i != nil && srcOK(i) && distinctPaths(i)
+//@   modifies i.src, i.sourceFragments, i.knownPredicates, Interpreter.knownPredicates, i.simpleStore, i.temporalStore, i.store
 //@   ensures old(len(i.src)) == 0 ==> result == nil && len(i.src) == 0
 //@   ensures old(len(i.src)) > 0 ==> len(i.src) == old(len(i.src)) - 1 && (forall k int :: 0 <= k && k < len(i.src) ==> i.src[k] == old(i.src[k]))
 //@   ensures old(len(i.src)) > 0 ==> result == old(i.sourceFragments[i.src[len(i.src)-1]]) && i.simpleStore == old(i.sourceFragments[i.src[len(i.src)-1]].simpleCheckpoint) && i.temporalStore == old(i.sourceFragments[i.src[len(i.src)-1]].temporalCheckpoint)
-//@   loop 1 invariant len(i.src) == old(len(i.src)) - 1 && (forall k int :: 0 <= k && k < len(i.src) ==> i.src[k] == old(i.src[k])) && i.simpleStore == old(i.simpleStore) && i.temporalStore == old(i.temporalStore) && f == old(i.sourceFragments[i.src[len(i.src)-1]]) && f != nil
-// Nothing the popped fragment declared stays known (a later definition of the same predicate must be accepted as in a
-// fresh interpreter), and a pop never makes a predicate known. (The converse half of the stack property - predicates
-// that were known BEFORE the push stay known - does not hold for this code: the fragment's program also lists
-// declarations contributed by earlier fragments; recorded in DESIGN.md.)
-//@   ensures old(len(i.src)) > 0 && result.program != nil ==> (forall sym ast.PredicateSym :: sym in result.program.Decls && result.program.Decls[sym] != nil ==> result.program.Decls[sym].DeclaredAtom.Predicate !in i.knownPredicates)
-//@   ensures forall q ast.PredicateSym :: q in i.knownPredicates ==> old(q in i.knownPredicates)
-//@   loop 1 invariant forall sym ast.PredicateSym :: sym in seen && f.program.Decls[sym] != nil ==> f.program.Decls[sym].DeclaredAtom.Predicate !in i.knownPredicates
-//@   loop 1 invariant forall q ast.PredicateSym :: q in i.knownPredicates ==> old(q in i.knownPredicates)
+// What is known after a pop is EXACTLY what the remaining live fragments declare: nothing the popped fragment alone
+// declared - by rules or by facts only - stays known (a later definition of the same predicate must be accepted as in
+// a fresh interpreter), and everything an earlier fragment declared is still known (the original deleted every
+// declaration listed in the popped program, which includes those inherited from earlier fragments: fixed).
+//@   ensures old(len(i.src)) > 0 ==> allKnown(i, len(i.src))
+//@   ensures old(len(i.src)) > 0 ==> (forall q ast.PredicateSym :: q in i.knownPredicates ==> liveDecl(i, len(i.src), q))
+//@   loop 1 invariant len(i.src) == old(len(i.src)) - 1 && (forall k int :: 0 <= k && k < len(i.src) ==> i.src[k] == old(i.src[k])) && i.simpleStore == old(i.simpleStore) && i.temporalStore == old(i.temporalStore) && f == old(i.sourceFragments[i.src[len(i.src)-1]]) && f != nil && i.knownPredicates != nil && liveOK(i)
+//@   loop 1 invariant allKnown(i, rangeindex + 1)
+//@   loop 1 invariant forall q ast.PredicateSym :: q in i.knownPredicates ==> liveDecl(i, rangeindex + 1, q)
+//@   loop 2 invariant len(i.src) == old(len(i.src)) - 1 && (forall k int :: 0 <= k && k < len(i.src) ==> i.src[k] == old(i.src[k])) && i.simpleStore == old(i.simpleStore) && i.temporalStore == old(i.temporalStore) && f == old(i.sourceFragments[i.src[len(i.src)-1]]) && f != nil && i.knownPredicates != nil && liveOK(i)
+//@   loop 2 invariant p == i.src[rangeindex] && 0 <= rangeindex && rangeindex < len(i.src)
+//@   loop 2 invariant allKnown(i, rangeindex) && (forall sym ast.PredicateSym :: sym in seen ==> i.sourceFragments[p].program.Decls[sym].DeclaredAtom.Predicate in i.knownPredicates)
+//@   loop 2 invariant forall q ast.PredicateSym :: q in i.knownPredicates ==> (liveDecl(i, rangeindex, q) || (exists sym ast.PredicateSym :: sym in seen && sym in i.sourceFragments[p].program.Decls && i.sourceFragments[p].program.Decls[sym].DeclaredAtom.Predicate == q))
 
 //@ func (i *Interpreter) resetInteractiveDefs(buffer)
-//@   requires i != nil && srcOK(i)
-//@   modifies i.buffer, i.src, i.sourceFragments, i.knownPredicates, i.simpleStore, i.temporalStore, i.store
+//@   requires i != nil && srcOK(i) && distinctPaths(i)
+//@   modifies i.buffer, i.src, i.sourceFragments, i.knownPredicates, Interpreter.knownPredicates, i.simpleStore, i.temporalStore, i.store
 //@   ensures i.buffer == buffer
 //@   ensures !old(topIsInteractive(i)) ==> len(i.src) == old(len(i.src))
 //@   ensures old(topIsInteractive(i)) ==> len(i.src) == old(len(i.src)) - 1
 
 // Opaque front-end calls (trusted frames): parsing touches nothing of ours; analysis may edit the map it is given.
+// (pushLoadedFragment refuses a path that already has a fragment - the original did not, and popping twice after loading
+// one declaration-free file twice dereferenced a missing fragment: fixed. Its body is analysis + evaluation: ASSUMED.)
 //@ func (i *Interpreter) pushLoadedFragment(pathset, units)
-//@   trusted
+//@   opt assumeensures
+//@   opt assumeframe
+//@   opt nosafety
 //@   requires i != nil
 //@   modifies everything except Interpreter.buffer
+//@   guard call pushSourceFragment: arg1 !in i.sourceFragments
 
 // Loading a file discards the interactive definitions: afterwards the interactive text buffer is empty, on every path.
 //@ func (i *Interpreter) Load(pathset)
-//@   requires i != nil && srcOK(i)
+//@   requires i != nil && srcOK(i) && distinctPaths(i)
 //@   opt nosafety
 //@   ensures i.buffer == ""
 
 // ::pop on interactive definitions empties the text buffer together with the fragment.
 //@ func (i *Interpreter) Pop()
-//@   requires i != nil && srcOK(i)
+//@   requires i != nil && srcOK(i) && distinctPaths(i)
 //@   opt nosafety
 //@   ensures old(topIsInteractive(i)) ==> i.buffer == "" && len(i.src) == old(len(i.src)) - 1
 //@   ensures !old(topIsInteractive(i)) && old(len(i.src)) > 0 ==> i.buffer == old(i.buffer) && len(i.src) == old(len(i.src)) - 1
@@ -78,7 +97,7 @@ package interpreter
 
 // A definition that is rejected leaves the visible state unchanged: the list of live fragments is what it was.
 //@ func (i *Interpreter) Define(clauseText)
-//@   requires i != nil && srcOK(i)
+//@   requires i != nil && srcOK(i) && distinctPaths(i)
 //@   opt nosafety
 //@   ensures err != nil ==> len(i.src) == old(len(i.src))
 // Finer than the postcondition above (which fails for definitions the ANALYSIS rejects: known finding): text that does
